@@ -15,7 +15,7 @@ for d in sorted(glob.glob(os.path.join(V, "seeded", "C*-*"))):
                "demonstration": {"with_change_exit": (e.get("demo_with_change") or {}).get("exit"), "without_change_exit": (e.get("demo_without_change") or {}).get("exit")},
                "checks": {k: {"exit": v["exit"], "keys": v["keys"][:8], "wall_s": v["wall_s"]} for k, v in e.get("checks", {}).items()},
                "how": "tools/seed_eval.py: clone of /repo + git apply patch.diff, /tmp/seedtools/run_pinned.sh (55 pinned tests), demo_cmd on the changed and (git stash) unchanged tree, then CMI_REPO=<clone> ./check <property> --tier quick",
-               "when": e.get("time")}
+               "when": e.get("time"), "earlier_verdicts": e.get("history", [])}
         m["ran"] = ran
         if m.get("reruns"):
             pass
